@@ -21,9 +21,15 @@ type Config struct {
 }
 
 type Native struct {
-	Name  string
-	En    func(s *Sys) *Term
-	Apply func(s *Sys, q *Path)
+	Name string
+	// Conflicts reports the processes whose transitions do not commute with
+	// this environment process. When set, the process is scheduled eagerly:
+	// it may only fire at step t+1 if it was not enabled at step t or step t
+	// was taken by a conflicting process (partial-order reduction).
+	Conflicts func(pr *Proc) bool
+	prevEn    *Term
+	En        func(s *Sys) *Term
+	Apply     func(s *Sys, q *Path)
 }
 
 type Proc struct {
@@ -54,6 +60,7 @@ type Sys struct {
 	StepPaths      int
 	Verbose        bool
 	SymmetricPeers bool
+	POR            bool
 	OneHot         bool
 	TotalPaths     int
 	TotalInstr     int
@@ -497,7 +504,7 @@ func (s *Sys) variantsOf(pr *Proc, c *Config, arm, peer *Term) []variant {
 		var out []variant
 		for _, sv := range h.Variants(s, s.pre(), st, args) {
 			sv := sv
-			out = append(out, variant{what: st.Name + ":" + sv.What, en: sv.En, extra: B.True, apply: func(q *Path) {
+			out = append(out, variant{what: fmt.Sprintf("%s#%d:%s", st.Name, st.K, sv.What), en: sv.En, extra: B.True, apply: func(q *Path) {
 				qf := q.Cur.top()
 				qf.Phase = 0
 				qf.StubK = nil
@@ -662,6 +669,19 @@ func (s *Sys) absorb(paths []*Path) {
 		for _, x := range changed[i] {
 			cur = B.Ite(x.g, x.val, cur)
 		}
+		if e.cellInt[i] {
+			cur = e.clampInt(cur, func(c *Term) {
+				fa := e.Flag("unwind") - AddrBase
+				for len(s.Heap) <= fa {
+					s.Heap = append(s.Heap, nil)
+				}
+				old := s.Heap[fa]
+				if old == nil {
+					old = B.False
+				}
+				s.Heap[fa] = B.Or(old, c)
+			})
+		}
 		s.Heap[i] = cur
 	}
 	// process configurations
@@ -781,6 +801,18 @@ func (s *Sys) Step() {
 			}
 			anyEn = B.Or(anyEn, en)
 			g := B.And(pick, en)
+			if pr.Native.Conflicts != nil && s.POR {
+				if pr.Native.prevEn != nil && t > 0 {
+					prevConf := B.False
+					for _, q := range s.Procs {
+						if q != pr && pr.Native.Conflicts(q) {
+							prevConf = B.Or(prevConf, B.Eq(s.Choice[t-1], B.BV(8, uint64(q.Pid))))
+						}
+					}
+					s.Constraints = append(s.Constraints, B.Implies(B.And(g, pr.Native.prevEn), prevConf))
+				}
+				pr.Native.prevEn = en
+			}
 			fired = B.Or(fired, g)
 			q := &Path{Guard: g, Heap: append([]*Term(nil), s.Heap...)}
 			pr.Native.Apply(s, q)
